@@ -1135,7 +1135,7 @@ def _kthlist_parse(inputfile):
         # must be before the graph size
         if l[0] == 'c':
             if size < 0 and len(name) == 0 and len(l[2:].strip()) != 0:
-                name += l[2:]
+                name += l[2:].strip()
             continue
 
         # empty line
